@@ -96,3 +96,12 @@ CASES += [
     t("running integral by a unit-spacing quadrature times the step", TDR, _SPL,
       "                            cc[:,k,i,j] = scipy.integrate.cumulative_trapezoid(ff, initial=0.0)*(tm[1]-tm[0])\n"),
 ]
+
+_CFP = "quantarhei/qm/corfunctions/correlationfunctions.py"
+_MS = "            n = i+1\n            msf += nut*n*numpy.exp(-nut*n*time)/((nut*n)**2-(1.0/ctime)**2)\n"
+CASES += [
+    m("Matsubara terms below the relaxation rate skipped (seeded change of round 7)", "C06-R10", _CFP, _MS,
+      "            n = i+1\n            if nut*n - 1.0/ctime < 1.0e-10/ctime:\n                continue\n            msf += nut*n*numpy.exp(-nut*n*time)/((nut*n)**2-(1.0/ctime)**2)\n"),
+    t("resonant Matsubara term skipped by a two-sided test", _CFP, _MS,
+      "            n = i+1\n            if numpy.abs(nut*n - 1.0/ctime) < 1.0e-300:\n                continue\n            msf += nut*n*numpy.exp(-nut*n*time)/((nut*n)**2-(1.0/ctime)**2)\n"),
+]
